@@ -279,3 +279,113 @@ func GlobalElems(p *Prog, v ssa.Value) ([]ssa.Value, *ssa.Global, bool) {
 	}
 	return vals, g, true
 }
+
+// GlobalOf: v is a load of a package-level variable; that variable.
+func GlobalOf(v ssa.Value) *ssa.Global {
+	u, ok := Origin(v).(*ssa.UnOp)
+	if !ok || u.Op != token.MUL {
+		return nil
+	}
+	g, _ := u.X.(*ssa.Global)
+	return g
+}
+
+// FuncPkgOfGlobal: the package declaring g.
+func FuncPkgOfGlobal(g *ssa.Global) *types.Package {
+	if g == nil || g.Pkg == nil {
+		return nil
+	}
+	return g.Pkg.Pkg
+}
+
+// GlobalMapPairs: the (integer constant key -> value) pairs the initialiser
+// of the package-level map g puts there (map literal in a var declaration:
+// MakeMap, MapUpdates and one Store in the package's init).  Empty if the
+// initialiser has another form.
+func GlobalMapPairs(p *Prog, g *ssa.Global) map[int64]ssa.Value {
+	out := map[int64]ssa.Value{}
+	if g == nil || g.Pkg == nil {
+		return out
+	}
+	init := g.Pkg.Func("init")
+	if init == nil {
+		return out
+	}
+	var mm *ssa.MakeMap
+	n := 0
+	Instrs(init, func(in ssa.Instruction) {
+		if st, ok := in.(*ssa.Store); ok && st.Addr == ssa.Value(g) {
+			n++
+			mm, _ = st.Val.(*ssa.MakeMap)
+		}
+	})
+	if n != 1 || mm == nil || mm.Referrers() == nil {
+		return out
+	}
+	for _, r := range *mm.Referrers() {
+		switch u := r.(type) {
+		case *ssa.MapUpdate:
+			k, isK := ConstInt(u.Key)
+			if !isK {
+				return map[int64]ssa.Value{}
+			}
+			out[k] = u.Value
+		case *ssa.Store, *ssa.DebugRef:
+		default:
+			return map[int64]ssa.Value{}
+		}
+	}
+	return out
+}
+
+// GlobalMapUnmodified: the package-level map g holds, at every read, exactly
+// what its initialiser put there: it is assigned once (in its package's init),
+// and everywhere in the module it is only loaded for lookups, len and range
+// (the map value itself is never stored, passed on, updated or deleted from).
+// What is read OUT of it may go anywhere.
+func GlobalMapUnmodified(p *Prog, g *ssa.Global) (bool, string) {
+	if g == nil || g.Pkg == nil {
+		return false, "no such variable"
+	}
+	init := g.Pkg.Func("init")
+	ok, why := true, ""
+	for _, f := range p.AllFuncs() {
+		Instrs(f, func(in ssa.Instruction) {
+			if !ok {
+				return
+			}
+			for _, op := range in.Operands(nil) {
+				if *op != ssa.Value(g) {
+					continue
+				}
+				switch x := in.(type) {
+				case *ssa.Store:
+					if x.Addr == ssa.Value(g) && Outer(f) == init {
+						continue
+					}
+					ok, why = false, "assigned at "+p.Pos(in.Pos())
+				case *ssa.UnOp:
+					if x.Op != token.MUL || x.Referrers() == nil {
+						ok, why = false, "used at "+p.Pos(in.Pos())
+						continue
+					}
+					for _, r := range *x.Referrers() {
+						switch u := r.(type) {
+						case *ssa.Lookup, *ssa.Range, *ssa.DebugRef:
+						case *ssa.Call:
+							if _, isLen := BuiltinCall(u, "len"); !isLen {
+								ok, why = false, "handed on at "+p.Pos(u.Pos())
+							}
+						default:
+							ok, why = false, "used at "+p.Pos(r.Pos())
+						}
+					}
+				case *ssa.DebugRef:
+				default:
+					ok, why = false, "address used at "+p.Pos(in.Pos())
+				}
+			}
+		})
+	}
+	return ok, why
+}
